@@ -376,6 +376,16 @@ impl Word {
             *i += 1;
             while *i < txt.len() {
                 #[cfg(feature = "verif")] crate::verif::tick(201);
+                // an americanist letter inside a longer grapheme (`ⁿ¢` = `ⁿt͡s`), which is how such a word is written back
+                if let Some(ipa) = Self::americanist_to_ipa(txt[*i]) {
+                    let mut tmp = buffer.clone(); tmp.push_str(ipa);
+                    if CARDINALS_TRIE.contains_prefix(tmp.as_str()) {
+                        buffer.push_str(ipa);
+                        self.americanist = true;
+                        *i += 1;
+                        continue;
+                    }
+                }
                 let mut tmp = buffer.clone(); tmp.push(self.to_ipa(txt[*i]));
                 if CARDINALS_TRIE.contains_prefix(tmp.as_str()) {
                     buffer.push(self.to_ipa(txt[*i]));
